@@ -176,6 +176,57 @@ class FinishingHistoryLearner(HistoryLearner):
     def state(self):
         return (self.h, self.n_pred, self.n_learn, None if self.mem is None else list(self.mem["trace"]), self.finished)
 
+class SizedHistoryLearner(HistoryLearner):
+    """A learner with a length (= number of updates so far): FALSY while pristine, like any container-like user object."""
+    def __len__(self):
+        return self.n_learn
+
+    @property
+    def params(self):
+        return dict(super().params, sized=True)
+
+class SizedFinishingHistoryLearner(FinishingHistoryLearner):
+    def __len__(self):
+        return self.n_learn
+
+    @property
+    def params(self):
+        return dict(super().params, sized=True)
+
+class UncopyableHistoryLearner(HistoryLearner):
+    """Owns a lock (think: a handle to an external model): copy.deepcopy and pickle raise TypeError. Its learned state lives in
+    mutable containers (`mem`), so a shallow copy would share it."""
+    def __init__(self, *args, **kwargs):
+        super().__init__(*args, **kwargs)
+        import threading
+        self._lock = threading.Lock()
+
+    @property
+    def params(self):
+        return dict(super().params, uncopyable=True)
+
+    def learn(self, context, action, reward, probability, **kwargs):
+        with self._lock:
+            return super().learn(context, action, reward, probability, **kwargs)
+
+HISTORY_CLASSES = {(False, False): HistoryLearner, (True, False): FinishingHistoryLearner,
+                   (False, True): SizedHistoryLearner, (True, True): SizedFinishingHistoryLearner}
+
+class DropKeys(EnvironmentFilter):
+    """A user filter removing fields from every interaction (e.g. 'rewards': what plain logged data looks like)."""
+    def __init__(self, keys):
+        self.keys = list(keys)
+
+    @property
+    def params(self):
+        return {"dropped": ",".join(self.keys)}
+
+    def filter(self, interactions):
+        for x in interactions:
+            y = dict(x)
+            for k in self.keys: y.pop(k, None)
+            yield y
+
 class FaultyLearner(Learner):
     """Delegates to `inner`; raises InjectedFault(msg) at `where` in {'params','predict','learn'} on call number `at` (0-based)."""
     def __init__(self, inner, where, at, msg, batches=False):
